@@ -89,6 +89,11 @@ def fmtReply : Reply → String
     s!"conv {fmtNumber raw} {fmtDim b.unit} {fmtNumeric const} {fmtNames names}"
   | .convNone n _ _ _ => s!"convnone {fmtNumber n}"
   | .unitList _ parts => s!"list {fmtEntries parts}"
+  | .unitsFor v groups =>
+    let g := ";".intercalate (groups.map fun (c, ns) => (match c with | some c => hex c | none => "-") ++ ":" ++ ",".intercalate (ns.map encName))
+    s!"unitsfor {fmtDim v.unit} {g}"
+  | .factorize rs =>
+    "factorize " ++ ";".intercalate (rs.map fun r => ",".intercalate (r.map fun (n, k) => s!"{encName n}:{k}"))
 
 def hexOpt (o : Option String) : String := match o with | some s => hex s | none => "-"
 
